@@ -274,6 +274,19 @@ func (c *Compiler) compileDeclValue(node *parser.GenDecl) error {
 		defer func() { c.iotaVal = -1 }()
 	}
 
+	if isConst {
+		// A spec without values repeats the expressions of the previous one: the
+		// same nodes are compiled again, possibly under other bindings of the
+		// names they use, so they must not be rewritten in place.
+		for _, sp := range node.Specs {
+			if hasImplicitValue(sp.(*parser.ValueSpec)) {
+				c.sharedExprs++
+				defer func() { c.sharedExprs-- }()
+				break
+			}
+		}
+	}
+
 	for _, sp := range node.Specs {
 		spec := sp.(*parser.ValueSpec)
 		if isConst {
@@ -312,6 +325,18 @@ func (c *Compiler) compileDeclValue(node *parser.GenDecl) error {
 		}
 	}
 	return nil
+}
+
+// hasImplicitValue reports whether the spec has an identifier without a value
+// expression, i.e. repeats the expression of the previous spec of a const
+// declaration.
+func hasImplicitValue(spec *parser.ValueSpec) bool {
+	for i := range spec.Idents {
+		if i >= len(spec.Values) || spec.Values[i] == nil {
+			return true
+		}
+	}
+	return false
 }
 
 func (c *Compiler) defineConstLit(
